@@ -126,6 +126,66 @@ func init() {
 				}
 			}
 		}
+		// clients over real TCP, each with its own device and its own connection time-out, connecting and reconnecting at
+		// the same time (the race detector watches; every reply has to be the client's own)
+		{
+			type tres struct{ op, impl, prop string }
+			k := 6
+			out := make([]tres, k)
+			var sess []*tcpSession
+			var calls [][]*callSpec
+			for i := 0; i < k; i++ {
+				tcpConnTimeout = []time.Duration{2 * time.Second, 5 * time.Second, 4 * time.Second, 3 * time.Second, 0, 2500 * time.Millisecond}[i]
+				ts, err := newTCPSession(fmt.Sprintf("tcpuser%d", i), "pw", fmt.Sprintf("tcpkey%d", i))
+				tcpConnTimeout = 2 * time.Second
+				if err != nil {
+					sess = append(sess, nil)
+					calls = append(calls, nil)
+					continue
+				}
+				grant := frameReply([]rscp.Message{{Tag: rscp.RSCP_AUTHENTICATION, DataType: rscp.UChar8, Value: uint8(10)}})
+				var cs []*callSpec
+				for c := 0; c < 6; c++ {
+					if c%2 == 1 {
+						cs = append(cs, &callSpec{kind: "D"})
+						continue
+					}
+					q := &callSpec{kind: "S", dialOk: true, writeOk: true, reqs: g.nonceRequest(c), auth: grant}
+					q.user = frameReply(replyFor(q.reqs, c))
+					cs = append(cs, q)
+				}
+				sess = append(sess, ts)
+				calls = append(calls, cs)
+			}
+			var wg2 sync.WaitGroup
+			for i := 0; i < k; i++ {
+				if sess[i] == nil {
+					continue
+				}
+				wg2.Add(1)
+				go func(i int) {
+					defer wg2.Done()
+					var ops, res []string
+					prop := "pass"
+					for c, q := range calls[i] {
+						r := sess[i].call(q)
+						ops = append(ops, q.op())
+						res = append(res, r)
+						if q.kind != "D" && !strings.HasPrefix(r, "ok "+msgsString(replyFor(q.reqs, c))+" @") {
+							prop = "FAIL C17 a client with its own device got " + trunc(r, 100) + " while others were connecting"
+						}
+					}
+					sess[i].close()
+					out[i] = tres{fmt.Sprintf("hist %s %s | %s", hexOf([]byte(fmt.Sprintf("tcpuser%d", i))), hexOf([]byte("pw")), strings.Join(ops, " | ")), strings.Join(res, " | "), prop}
+				}(i)
+			}
+			wg2.Wait()
+			for _, o := range out {
+				if o.op != "" {
+					cw.add(o.op, o.impl, "N conc tcp-clients", o.prop)
+				}
+			}
+		}
 		// independence in time: a client that waits for a slow device (authentication answered after 1.5 s, or a request
 		// answered after 1.5 s) must not hold up another client whose own device answers at once
 		for _, where := range []string{"authentication", "request"} {
